@@ -1,4 +1,5 @@
 import Q1t.Proofs.SimGFStep
+import Q1t.Proofs.SimBasisAll
 /-!
 C01, `measure_all` in the computational basis on a homogeneous state.
 
@@ -701,5 +702,216 @@ theorem measureAll_step (H : Hyps α P nz n valid) {rs : List (Rng α)} (hgood :
       value_collapseAll hord n cbits g hv, one_mul]
 
 end step
+
+/-! ### 6. `measure_all` in the X and Y bases
+
+The simulator changes the basis of all qubits (`apply_unary_gate_all`), measures in Z, changes back; the
+reference semantics measures qubit after qubit in its own basis.  `Sim.measureAllTo_basis`
+(`SimBasisAll.lean`, from the commutation of one-qubit operators on different qubits) identifies the two. -/
+
+section basis
+variable {α P R : Type} [CommRing α] [Amp α P] [SimAmp α] [CommRing R] {nz : α → Prop} {n N : Nat}
+variable {valid : GateTerm P → List Nat → Prop}
+
+/-- the gate `g` on the listed qubits in turn -/
+def unaryL (n : Nat) (g : GateTerm P) (l : List Nat) (v : List α) : List α :=
+  l.foldl (fun v q => gateOn n g [q] v) v
+
+theorem unaryL_length (g : GateTerm P) : ∀ (l : List Nat) (v : List α), v.length = 2 ^ n →
+    (unaryL n g l v).length = 2 ^ n := by
+  intro l
+  induction l with
+  | nil => intro v hv; exact hv
+  | cons q l ih => intro v hv; exact ih _ (gateOn_length _ _ _ _)
+
+theorem unaryL_norm (H : Hyps α P nz n valid) (g : GateTerm P) : ∀ (l : List Nat), (∀ q ∈ l, valid g [q]) →
+    ∀ v : List α, v.length = 2 ^ n → normSqSum (unaryL n g l v) = normSqSum v := by
+  intro l
+  induction l with
+  | nil => intro _ v _; rfl
+  | cons q l ih =>
+    intro hv v hl
+    show normSqSum (unaryL n g l (gateOn n g [q] v)) = _
+    rw [ih (fun x hx => hv x (by simp [hx])) _ (gateOn_length _ _ _ _), H.sem.iso g [q] (hv q (by simp)) v hl]
+
+theorem unaryL_smul (g : GateTerm P) : ∀ (l : List Nat) (v : List α) (a : α),
+    unaryL n g l (v.map (· * a)) = (unaryL n g l v).map (· * a) := by
+  intro l
+  induction l with
+  | nil => intro v a; rfl
+  | cons q l ih =>
+    intro v a
+    show unaryL n g l (gateOn n g [q] (v.map (· * a))) = _
+    rw [gateOn_smul, ih]
+    rfl
+
+theorem unaryAll_eq_unaryL (g : GateTerm P) (v : List α) : Sim.unaryAll n g v = unaryL n g (List.range n) v := rfl
+
+theorem mapCol_mapCol (f F : List α → List α) (rs : List (Rng α)) :
+    (rs.map (mapCol f)).map (mapCol F) = rs.map (mapCol fun v => F (f v)) := by
+  simp [List.map_map, Function.comp_def, mapCol]
+
+/-- `apply_unary_gate_all` on a ranges state -/
+theorem foldl_applyGate_eq (H : Hyps α P nz n valid) (g : GateTerm P) : ∀ (l : List Nat), (∀ q ∈ l, valid g [q]) →
+    ∀ {rs : List (Rng α)}, Shape n N rs →
+    l.foldl (fun (acc : Prog α (VecState α)) bit => acc.bind fun st => VecState.applyGate st g [bit])
+        (Prog.pure (mkState n N rs)) =
+      Prog.pure (mkState n N (rs.map (mapCol (unaryL n g l)))) := by
+  intro l
+  induction l with
+  | nil =>
+    intro _ rs _
+    have : rs.map (mapCol (unaryL n g [])) = rs := by
+      conv_rhs => rw [← List.map_id rs]
+      exact List.map_congr_left (fun r _ => rfl)
+    simp only [List.foldl_nil, this]
+  | cons q l ih =>
+    intro hv rs h
+    simp only [List.foldl_cons, bind_pure']
+    rw [applyGate_eq H.sem H.runs (hv q (by simp)) h]
+    have h' : Shape n N (rs.map (mapCol (gateOn n g [q]))) :=
+      shape_mapCol h (fun _ => gateOn n g [q]) (fun _ v _ => gateOn_length _ _ _ v)
+    rw [ih (fun x hx => hv x (by simp [hx])) h', mapCol_mapCol]
+    rfl
+
+theorem applyUnaryAll_eq (H : Hyps α P nz n valid) {g : GateTerm P} (hv : ∀ q, q < n → valid g [q])
+    {rs : List (Rng α)} (h : Shape n N rs) :
+    VecState.applyUnaryAll (mkState n N rs) g = .pure (mkState n N (rs.map (mapCol (Sim.unaryAll n g)))) := by
+  unfold VecState.applyUnaryAll
+  exact foldl_applyGate_eq H g _ (fun q hq => hv q (List.mem_range.mp hq)) h
+
+theorem good_unaryAll (H : Hyps α P nz n valid) {g : GateTerm P} (hv : ∀ q, q < n → valid g [q])
+    {rs : List (Rng α)} (h : Good n N rs) : Good n N (rs.map (mapCol (Sim.unaryAll n g))) :=
+  good_mapCol h (fun _ => Sim.unaryAll n g) (fun _ v hl => unaryL_length g _ v hl)
+    (fun _ v hl => unaryL_norm H g _ (fun q hq => hv q (List.mem_range.mp hq)) v hl)
+
+theorem preAll_smul (b : Basis) (v : List α) (a : α) :
+    Sim.preAll (P := P) n b (v.map (· * a)) = (Sim.preAll (P := P) n b v).map (· * a) := by
+  cases b <;> simp [Sim.preAll, unaryAll_eq_unaryL, unaryL_smul]
+
+theorem postAll_smul (b : Basis) (v : List α) (a : α) :
+    Sim.postAll (P := P) n b (v.map (· * a)) = (Sim.postAll (P := P) n b v).map (· * a) := by
+  cases b <;> simp [Sim.postAll, unaryAll_eq_unaryL, unaryL_smul]
+
+theorem valid_all (H : Hyps α P nz n valid) :
+    (∀ q, q < n → valid (.H : GateTerm P) [q]) ∧ (∀ q, q < n → valid (.S : GateTerm P) [q]) ∧
+    (∀ q, q < n → valid (.Sdg : GateTerm P) [q]) :=
+  ⟨fun q hq => (H.sem.basis q hq).1, fun q hq => (H.sem.basis q hq).2.1, fun q hq => (H.sem.basis q hq).2.2.1⟩
+
+theorem postAll_length (b : Basis) (v : List α) (hv : v.length = 2 ^ n) :
+    (Sim.postAll (P := P) n b v).length = 2 ^ n := by
+  cases b
+  · exact unaryL_length _ _ v hv
+  · exact unaryL_length _ _ _ (unaryL_length _ _ v hv)
+  · exact hv
+
+theorem preAll_length (b : Basis) (v : List α) (hv : v.length = 2 ^ n) :
+    (Sim.preAll (P := P) n b v).length = 2 ^ n := by
+  cases b
+  · exact unaryL_length _ _ v hv
+  · exact unaryL_length _ _ _ (unaryL_length _ _ v hv)
+  · exact hv
+
+theorem postAll_norm (H : Hyps α P nz n valid) (b : Basis) (v : List α) (hv : v.length = 2 ^ n) :
+    normSqSum (Sim.postAll (P := P) n b v) = normSqSum v := by
+  obtain ⟨vH, vS, vSdg⟩ := valid_all H
+  have r : ∀ {g : GateTerm P}, (∀ q, q < n → valid g [q]) → ∀ q ∈ List.range n, valid g [q] :=
+    fun h q hq => h q (List.mem_range.mp hq)
+  cases b
+  · exact unaryL_norm H _ _ (r vH) v hv
+  · show normSqSum (unaryL n .S (List.range n) (unaryL n .H (List.range n) v)) = _
+    rw [unaryL_norm H _ _ (r vS) _ (unaryL_length _ _ v hv), unaryL_norm H _ _ (r vH) v hv]
+  · rfl
+
+theorem preAll_norm (H : Hyps α P nz n valid) (b : Basis) (v : List α) (hv : v.length = 2 ^ n) :
+    normSqSum (Sim.preAll (P := P) n b v) = normSqSum v := by
+  obtain ⟨vH, vS, vSdg⟩ := valid_all H
+  have r : ∀ {g : GateTerm P}, (∀ q, q < n → valid g [q]) → ∀ q ∈ List.range n, valid g [q] :=
+    fun h q hq => h q (List.mem_range.mp hq)
+  cases b
+  · exact unaryL_norm H _ _ (r vH) v hv
+  · show normSqSum (unaryL n .H (List.range n) (unaryL n .Sdg (List.range n) v)) = _
+    rw [unaryL_norm H _ _ (r vH) _ (unaryL_length _ _ v hv), unaryL_norm H _ _ (r vSdg) v hv]
+  · rfl
+
+variable {ord : List (Nat × Nat) → List (Nat × Nat)} (hord : ∀ l, (ord l).Perm l) (toR : α →+* R)
+include hord
+
+/-- **`measure_all` in any basis** -/
+theorem measureAllB_step (H : Hyps α P nz n valid) {rs : List (Rng α)} (hgood : Good n N rs) {cbits : List Nat}
+    (b : Basis) (hlen : cbits.length = n) (hnd : cbits.Nodup) (hlt : ∀ c ∈ cbits, c < 64)
+    {K : VecState α × List Nat → R} {g : List α × Nat → R} (hK : Mult n N K g) (hg : Scales (P := P) toR g) :
+    expectOrd ord toR (execOp (vecBackend (α := α) (P := P)) (mkState n N rs) (mkReg rs) (.measureAll cbits b)) K =
+      value (stepGf (P := P) n (.measureAll cbits b) g) rs := by
+  obtain ⟨vH, vS, vSdg⟩ := valid_all H
+  -- the Z-basis step with an arbitrary multiplicative continuation, on the model's helper itself
+  have hZ : ∀ {rs1 : List (Rng α)}, Good n N rs1 → ∀ {K1 : VecState α × List Nat → R} {g1 : List α × Nat → R},
+      Mult n N K1 g1 → Scales (P := P) toR g1 →
+      expectOrd ord toR (VecState.measureAllHelper (mkState n N rs1) cbits (mkReg rs1) true) K1 =
+        value (stepGf (P := P) n (.measureAll cbits .Z) g1) rs1 := by
+    intro rs1 hg1 K1 g1 hK1 hs1
+    have := measureAll_step hord toR H hg1 hlen hnd hlt hK1 hs1
+    simpa only [execOp, withBasisAll, vecBackend] using this
+  -- the reference side: project all in the changed basis, change back
+  have hspec : ∀ (sw : List α × Nat),
+      stepGf (P := P) n (.measureAll cbits .Z) (fun sw => g (Sim.postAll (P := P) n b sw.1, sw.2))
+        (Sim.preAll (P := P) n b sw.1, sw.2) = stepGf (P := P) n (.measureAll cbits b) g sw := by
+    intro sw
+    simp only [stepGf]
+    congr 1
+    apply List.map_congr_left
+    intro idx _
+    rw [Sim.measureAllTo_basis (P := P) b _ sw.1]
+  have hscale : Scales (P := P) toR (fun sw => g (Sim.postAll (P := P) n b sw.1, sw.2)) := by
+    intro v w a
+    simp only [postAll_smul]
+    exact hg _ _ _
+  cases b with
+  | Z => exact measureAll_step hord toR H hgood hlen hnd hlt hK hg
+  | X =>
+    simp only [execOp, withBasisAll, vecBackend, bind_eq', pure_eq']
+    rw [applyUnaryAll_eq H vH hgood.toShape, bind_pure', expectOrd_bind]
+    have hgood1 := good_unaryAll (N := N) H vH hgood
+    rw [← mkReg_mapCol (fun _ => Sim.unaryAll (P := P) n .H) rs]
+    have hK1 : Mult n N (fun sr : VecState α × List Nat => expectOrd ord toR
+        ((VecState.applyUnaryAll sr.1 (GateTerm.H : GateTerm P)).bind fun s2 => .pure (s2, sr.2)) K)
+        (fun sw => g (Sim.postAll (P := P) n .X sw.1, sw.2)) := by
+      intro rs' hg'
+      simp only [applyUnaryAll_eq H vH hg'.toShape, bind_pure', expectOrd_pure]
+      have := hK _ (good_unaryAll H vH hg')
+      rw [mkReg_mapCol (fun _ => Sim.unaryAll (P := P) n .H)] at this
+      rw [this, value_mapGate]
+      rfl
+    rw [hZ hgood1 hK1 hscale, value_mapGate]
+    apply value_congr
+    intro r _
+    exact hspec (r.2.1, r.2.2)
+  | Y =>
+    simp only [execOp, withBasisAll, vecBackend, bind_eq', pure_eq']
+    rw [applyUnaryAll_eq H vSdg hgood.toShape, bind_pure']
+    have hgood0 := good_unaryAll (N := N) H vSdg hgood
+    rw [applyUnaryAll_eq H vH hgood0.toShape, bind_pure', expectOrd_bind]
+    have hgood1 := good_unaryAll (N := N) H vH hgood0
+    have hreg : mkReg rs = mkReg ((rs.map (mapCol (Sim.unaryAll (P := P) n .Sdg))).map
+        (mapCol (Sim.unaryAll (P := P) n .H))) := by
+      rw [mkReg_mapCol (fun _ => Sim.unaryAll (P := P) n .H), mkReg_mapCol (fun _ => Sim.unaryAll (P := P) n .Sdg)]
+    rw [hreg]
+    have hK1 : Mult n N (fun sr : VecState α × List Nat => expectOrd ord toR
+        ((VecState.applyUnaryAll sr.1 (GateTerm.H : GateTerm P)).bind fun s2 =>
+          (VecState.applyUnaryAll s2 (GateTerm.S : GateTerm P)).bind fun s3 => .pure (s3, sr.2)) K)
+        (fun sw => g (Sim.postAll (P := P) n .Y sw.1, sw.2)) := by
+      intro rs' hg'
+      have h1 := good_unaryAll (N := N) H vH hg'
+      simp only [applyUnaryAll_eq H vH hg'.toShape, bind_pure', applyUnaryAll_eq H vS h1.toShape, expectOrd_pure]
+      have := hK _ (good_unaryAll H vS h1)
+      rw [mkReg_mapCol (fun _ => Sim.unaryAll (P := P) n .S), mkReg_mapCol (fun _ => Sim.unaryAll (P := P) n .H)] at this
+      rw [this, value_mapGate, value_mapGate]
+      rfl
+    rw [hZ hgood1 hK1 hscale, value_mapGate, value_mapGate]
+    apply value_congr
+    intro r _
+    exact hspec (r.2.1, r.2.2)
+
+end basis
 
 end Q1t.Sim.SimGF
